@@ -2,8 +2,8 @@ CONSTANTS
   NWakers = 2
   MaxDepth = 6
   WakeKeeps = FALSE
-  RegisterFlagInverted = TRUE
-  DropOldBeforeStore = FALSE
+  RegisterFlagInverted = FALSE
+  DropOldBeforeStore = TRUE
 SPECIFICATION Spec
 VIEW View
 PROPERTIES C17_LWSteps
